@@ -211,18 +211,31 @@ def run(ck, facts, tier):
         sub = lambda rg: Poly.atom(("call", "index", (cel.vkey(L), cel.vkey(rg))))
         rec1 = Sym("rec", cel.vkey(sub(rng_to)), cel.vkey(V), cel.vkey(Sym("ctor", "Some", lc)))
         rec2 = Sym("rec", cel.vkey(sub(rng_from)), cel.vkey(V), cel.vkey(Sym("ctor", "Some", lc + split)))
-        nc = paths.norm_cond
-        arm = lambda k: nc(("arm", k, n.key()))
-        le = nc(("if", cel.vkey(Sym("cmp", "Le", cel.vkey(V), cel.vkey(at_split)))))
+        # Paths are compared as (set of list lengths the path serves, its other literals, its result): a `match n {1, 2, _}` and an if-chain on n, or guard
+        # clauses with early returns, give the same regions. Lengths are taken over 1..12 (every branch of the recurrence is reached by 4).
+        nvar = ("len", cel.vkey(L), None)
+        DOM = range(1, 13)
+
+        def region(c, v):
+            feas, rest = paths.int_feasible(c, nvar, DOM)
+            leaf = cel.vkey(Sym("diverges", "panic")) if (isinstance(v, Sym) and v.tag[0] == "diverges") else cel.vkey(v)
+            return (tuple(feas), rest, leaf)
+        gotset = {region(c, v) for c, v in paths.flatten(got)}
+        gotset = {g for g in gotset if g[0]}           # combinations of tests no list length satisfies
+        lit = paths.lit
+        n_is = lambda k: lit(cel.cmp_sym("Eq", n, Poly.const(k), True))
+        le = lit(Sym("cmp", "Le", cel.vkey(V), cel.vkey(at_split)))
         nle = (le[0], not le[1])
-        short = Sym("and", *sorted([cel.vkey(cel.cmp_sym("Eq", n, Poly.const(3))), cel.vkey(cel.eq_sym(V, at_split))], key=repr))
-        sc, nsc = nc(("if", cel.vkey(short))), nc(("not", ("if", cel.vkey(short))))
-        base = {(frozenset([arm("1")]), cel.vkey(Sym("diverges", "panic"))), (frozenset([arm("2")]), lc.key())}
-        want_a = base | {(frozenset([arm("_"), sc]), lc.key()), (frozenset([arm("_"), nsc, le]), cel.vkey(rec1)), (frozenset([arm("_"), nsc, nle]), cel.vkey(rec2))}
-        want_b = base | {(frozenset([arm("_"), le]), cel.vkey(rec1)), (frozenset([arm("_"), nle]), cel.vkey(rec2))}
-        gotset = {(c, cel.vkey(v) if not (isinstance(v, Sym) and v.tag[0] == "diverges") else cel.vkey(Sym("diverges", "panic"))) for c, v in paths.flatten(got)}
+        eqv = lit(cel.eq_sym(V, at_split))
+        short = Sym("and", *sorted([cel.vkey(cel.cmp_sym("Eq", n, Poly.const(3), True)), cel.vkey(cel.eq_sym(V, at_split))], key=repr))
+        sc, nsc = lit(short), lit(short, False)
+        n1, n2 = n_is(1), n_is(2)
+        not12 = [(n1[0], not n1[1]), (n2[0], not n2[1])]
+        base = {region(frozenset([n1]), Sym("diverges", "panic")), region(frozenset([(n1[0], not n1[1]), n2]), lc)}
+        want_a = base | {region(frozenset(not12 + [sc]), lc), region(frozenset(not12 + [nsc, le]), rec1), region(frozenset(not12 + [nsc, nle]), rec2)}
+        want_b = base | {region(frozenset(not12 + [le]), rec1), region(frozenset(not12 + [nle]), rec2)}
         ck.check(r5, "index_left[left_count=%s]" % lcname, gotset in (want_a, want_b), "index_left is not the bisection recurrence (a changed shortcut, split or branch would select a wrong interval for some list length)",
-                 where, detail="only in code: %s" % [(sorted(map(str, c))[:3], str(v)[:160]) for c, v in list(gotset - want_a)[:3]], sample="5 paths: abort / count / shortcut / left half / right half")
+                 where, detail="only in code: %s" % [(g[0], sorted(map(str, g[1]))[:3], str(g[2])[:160]) for g in list(gotset - want_a)[:3]], sample="5 regions: abort / count / shortcut / left half / right half")
     # ---------------- R11.6 the key conversion of the stored nodes is the one applied to the query date
     r6 = ck.rule("R11.6", "Nodes -> NodesTimestamp keeps every node, in order, as (key.and_utc().timestamp(), value unchanged) for all three kinds — the same conversion "
                           "the look-up applies to the query date, so a node carrying a time of day is found at that time", floor=3)
